@@ -7,7 +7,9 @@ for d in seeded/*/; do
   id=$(basename $d); prop=$(jq -r .property $d/meta.json)
   if [ "$(jq -r '.obsolete // false' $d/meta.json)" = "true" ]; then echo "SKIPPED $id ($prop): not counted (see check_result in meta.json)"; continue; fi
   out=$(./scripts/try_seed.sh /verif/seeded/$id $prop 2>&1)
-  if echo "$out" | grep -q "^VIOLATION property=$prop"; then
+  if echo "$out" | grep -q "^PATCH-DOES-NOT-APPLY"; then
+    echo "NOAPPLY $id ($prop): the repository moved on, re-base seeded/$id/patch.diff"; rc=1
+  elif echo "$out" | grep -q "^VIOLATION property=$prop"; then
     echo "CAUGHT $id ($prop): $(echo "$out" | grep -A0 -m1 '^  C' | cut -c1-140)"
   else
     echo "MISSED $id ($prop)"; rc=1
